@@ -585,22 +585,30 @@ static void build_cells(bool thorough)
 	for (int f = 1; f >= 0; f--)
 		for (int late = (thorough ? 1 : 3); late < 4; late++)
 		{
-			std::string id = "enterleave:n=4,t=1,innerfifo=" + str(f) + ",party=" + str(late) + ",d<=2";
+			// what L does after entering: 0 leaves to the base channel, 1 enters a nested channel, 2 leaves and enters a sibling
+			// channel (thorough; three program steps, d <= 3).  All channels of a cell, the base channel included, have the same
+			// FIFO setting, so that with FIFO off L is in a non-FIFO channel wherever the answer reaches it.
+			for (int after = 0; after < (thorough ? 3 : 2); after++)
+			{
+			int bound = after == 2 ? 3 : 2;
+			std::string id = "enterleave:n=4,t=1,fifo=" + str(f) + ",party=" + str(late) + ",then=" + str(after) + ",d<=" + str(bound);
 			cells.push_back(Cell{id, [=]() {
 				bool ok = true;
 				for (int from = -1; from < 4 && ok; from++)
 				{
 					if (from == late) continue;
-					Cfg c = base_cfg(4, 1, true, -1);
+					Cfg c = base_cfg(4, 1, f != 0, -1);
 					for (int p = 0; p < 4; p++) c.prog[p].push_back(Ev{'S', 1, f, 0});
 					c.prog[0].push_back(Ev{'B', (int)val_of(0, 0), 0, 0});
-					c.prog[late].push_back(Ev{'U', 0, 0, 0});
+					if (after == 0 || after == 2) c.prog[late].push_back(Ev{'U', 0, 0, 0});
+					if (after >= 1) c.prog[late].push_back(Ev{'S', 2, f, 0});
 					std::vector<std::pair<int, int> > dem;
 					if (from >= 0) dem.push_back(std::make_pair(from, late));
-					ok = dfs(c, id + ",demote=" + str(from), 2, dem, std::make_pair(-1, -1), {}, late);
+					ok = dfs(c, id + ",demote=" + str(from), bound, dem, std::make_pair(-1, -1), {}, late);
 				}
 				return ok;
 			}});
+			}
 		}
 	// 4b. late join: the broadcast happens in an inner channel (FIFO on/off) while one party is still on the parent channel
 	//     and enters only when nothing else is left to do; every demoted link (so that payloads have to be fetched by
